@@ -53,6 +53,14 @@ CLAIMS = {
             "Trusted: from_bytes/to_bytes/slice semantics, sizes returned by os.urandom/digest/Generator.bytes, getrandbits(n) < 2^n. "
             "Not decided: that the emulations reproduce the original bit streams beyond constants and update shape.",
             "DESIGN.md section 3 C20"),
+    "C12": ("other", "constant folding of embedded tables against independently derived exact distributions; predicate-region equivalence of the insufficient-data guards; sign analysis of the cusum extrema",
+            "Decides the table clause and the insufficient-data clause of the property, and one structural necessary condition of the cumulative-sums p-value: "
+            "the 17 longest-run, 6 + 33 rank, 32 universal (L <= 10 quick, 16 thorough), 11 min_n, 14 linear-complexity literals and the random-excursions "
+            "polynomials equal exact derivations to one unit in the last printed digit (the M = 10^4 longest-run row is NIST's published, inexact one: 7 known findings "
+            "keyed by literal); table shapes agree with their consumers; each of the nine InsufficientDataError guards equals the documented minimum on all regions; "
+            "the cusum extrema are provably on the right side of S_0 = 0 (exposed the defect repaired by fix 0d3e4df).",
+            "Not decided: the floating-point p-value formulas, the [0,1] range and the invariance clauses (runtime values). Shape rules (R-C12-CONSIST) compare normalised statements and are the most refactoring-sensitive part.",
+            "DESIGN.md section 3 C12"),
     "C16": ("other", "typestate / who-may-write analysis over the AST + symbolic path walk of all 24 Check bodies",
             "Decides, for every path of every Check body in the package, that each loop iteration records exactly one "
             "result entry on that iteration's artifact with an entry created in the same iteration, that the positive flag, "
